@@ -3,16 +3,16 @@ from . import ntt
 from ..runner import Ob
 META = dict(
     functions=['NTT_Goldilocks::NTT_Goldilocks (constructor, GMP calls on python integers)', 'NTT_Goldilocks::NTT', 'NTT_Goldilocks::NTT_iters', 'NTT_Goldilocks::reversePermutation', 'NTT_Goldilocks::root/log2/intt_idx', 'Goldilocks::parcpy', 'NTT_Goldilocks::~NTT_Goldilocks'],
-    bounds={'quick': 'object domain 2^s, s <= 4; transform size n = 2^d, 0 <= d <= s (and size 0); ncols 0..3; nphase, nblock: ALL uint64 values (symbolic, classes proved exhaustive); dst in {other, src, NULL}; buffer in {NULL, caller}; all input matrices, any representation',
+    bounds={'quick': 'object domain 2^s, s <= 5; transform size n = 2^d, 0 <= d <= s (and size 0); ncols 0..3; nphase, nblock: ALL uint64 values (symbolic, classes proved exhaustive); dst in {other, src, NULL}; buffer in {NULL, caller}; all input matrices, any representation',
             'thorough': 's <= 7 (n <= 128), ncols 0..4, otherwise as quick'},
-    outside=['sizes above the bound', 'the parallel execution (C12 shows it equals the sequential semantics executed here)', 'nThreads only enters dead chunk arithmetic in the sequential IR; values 1, 3 and 0 (default) are rotated over the classes'],
+    outside=['sizes above the bound', 'the parallel execution (C12 shows it equals the sequential semantics executed here)', 'nThreads: all of {1,2,3,4,default} for size-1 transforms (where parcpy delivers the result), rotated over {1,3,default,2} elsewhere'],
     stubs=['GMP on python integers (constructor)', 'malloc/free tracking'],
     assumptions=['field-level mode: input words are arbitrary residue classes (representation-independent by the contracts of Goldilocks::add/sub/mul, re-proved bit-precisely in this run)',
                  'a caller-provided scratch buffer has size*ncols elements'],
     trusted_base=['Z-lift: congruences of integer linear forms mod p decided by z3', 'W[d] checked to be a primitive 2^d-th root of unity by ground arithmetic'])
 KIND = 'ntt'
 def classes(ctx, kind=KIND):
-    S = 7 if ctx.thorough else 4; C = 4 if ctx.thorough else 3
+    S = 7 if ctx.thorough else 5; C = 4 if ctx.thorough else 3
     out = []
     for s_ in range(0, S + 1):
         for d in [-1] + list(range(0, s_ + 1)):
@@ -26,7 +26,10 @@ def classes(ctx, kind=KIND):
 def obligations(ctx, kind=KIND, prop='C03'):
     obs = []
     for i, (k, s_, d, ncols, dstmode, buf) in enumerate(classes(ctx, kind)):
-        obs.append(Ob('%s/s%d/d%d/c%d/%s/%s' % (k, s_, d, ncols, dstmode, 'buf' if buf else 'nobuf'), ntt.ob, (prop, k, s_, d, ncols, dstmode, buf), weight=(1 << max(d, 0)) * max(ncols, 1)))
+        # nThreads enters the sequential semantics through parcpy (size-1 transforms) and chunk arithmetic: all of 1,2,3,4,default for n = 1, rotated elsewhere
+        nts = (1, 2, 3, 4, 0) if (d == 0 and ncols > 1) else ((1, 3, 0, 2)[i % 4],)
+        for nt in nts:
+            obs.append(Ob('%s/s%d/d%d/c%d/%s/%s/t%d' % (k, s_, d, ncols, dstmode, 'buf' if buf else 'nobuf', nt), ntt.ob, (prop, k, s_, d, ncols, dstmode, buf), dict(nthreads=nt), weight=(1 << max(d, 0)) * max(ncols, 1)))
     obs += contract_obs(ctx)
     return obs
 def contract_obs(ctx):
